@@ -354,8 +354,11 @@ def judge_callback_history(which, seq):
     from nuspacesim.simulation.eas_optical.cphotang import CphotAng
     from nuspacesim.simulation.eas_optical.eas import EAS
 
-    mk = (lambda: CphotAng(525.0)) if which == "kernel" else (lambda: EAS(sim.make_config()))
-    want = [_batch_call(mk(), CALLBACKS[i], which) for i in seq]
+    # (the stage under test is configured with a cloud model, the reference stage with a clear sky: the configuration's
+    # cloud model reaches the kernel through the callback argument only)
+    mk = (lambda: CphotAng(525.0)) if which == "kernel" else (lambda: EAS(sim.make_config(cloud="mono")))
+    mk_ref = (lambda: CphotAng(525.0)) if which == "kernel" else (lambda: EAS(sim.make_config()))
+    want = [_batch_call(mk_ref(), CALLBACKS[i], which) for i in seq]
     o = mk()
     for k, i in enumerate(seq):
         got = _batch_call(o, CALLBACKS[i], which)
